@@ -1,7 +1,28 @@
 import PyYetiVerif.Props.C09
+import PyYetiVerif.Props.C09Parent
 #print axioms PyYetiVerif.C09.schedule_independent
 #print axioms PyYetiVerif.C09.parallel_eq_serial
 #print axioms PyYetiVerif.C09.final_is_solo
 #print axioms PyYetiVerif.C09.footprint_gives_hyp
 #print axioms PyYetiVerif.C09.generated_footprints_ok
 #print axioms PyYetiVerif.C09.generated_workers_complete
+#print axioms PyYetiVerif.C09.generated_decision_is_std
+#print axioms PyYetiVerif.C09.generated_helpers_std
+#print axioms PyYetiVerif.C09.auto_rule
+#print axioms PyYetiVerif.C09.yes_rule
+#print axioms PyYetiVerif.C09.no_rule
+#print axioms PyYetiVerif.C09.invalid_option_raises
+#print axioms PyYetiVerif.C09.pool_size_bounds
+#print axioms PyYetiVerif.C09.pool_size_ignores_task_count
+#print axioms PyYetiVerif.C09.generated_parent_ok
+#print axioms PyYetiVerif.C09.generated_sites_complete
+#print axioms PyYetiVerif.C09.generated_serial_is_worker_loop
+#print axioms PyYetiVerif.C09.tasks_partition_outputs
+#print axioms PyYetiVerif.C09.generated_outputs_partitioned
+#print axioms PyYetiVerif.C09.assembly_eq_serial
+#print axioms PyYetiVerif.C09.generated_srs_owner
+#print axioms PyYetiVerif.C09.srs_hyp
+#print axioms PyYetiVerif.C09.srs_final_cells
+#print axioms PyYetiVerif.C09.peak_applied_once
+#print axioms PyYetiVerif.C09.getresp_histories_eq_serial
+#print axioms PyYetiVerif.C09.srs_routine_eq_serial
